@@ -1031,6 +1031,11 @@ out:
 #include "daisy.c"
 #undef ASPECT_STRF
 
+#if defined DATEUTILS_VERIF
+/* verification hook: observer of the print record after each specifier */
+void (*dt_verif_strf_obs)(const void *rec, size_t recsz);
+#endif	/* DATEUTILS_VERIF */
+
 DEFUN size_t
 dt_strfd(char *restrict buf, size_t bsz, const char *fmt, struct dt_d_s that)
 {
@@ -1163,6 +1168,11 @@ dt_strfd(char *restrict buf, size_t bsz, const char *fmt, struct dt_d_s that)
 		} else if (UNLIKELY(spec.rom)) {
 			bp += __strfd_rom(bp, eo - bp, spec, &d, that);
 		}
+#if defined DATEUTILS_VERIF
+		if (dt_verif_strf_obs != NULL) {
+			dt_verif_strf_obs(&d, sizeof(d));
+		}
+#endif	/* DATEUTILS_VERIF */
 	}
 	if (bp < buf + bsz) {
 	out:
